@@ -23,7 +23,8 @@ func Setup() {
 	root = hx.EmptyDoc()
 	exprs = map[string]*xsel.Grammar{}
 	for _, s := range []string{"string($x)", "number($x)", "boolean($x)", "not($x)", "not(not($x))",
-		"$x + 0", "concat($x, '')", "$x = true()", "string-length($x)", "- $x", "$x"} {
+		"$x + 0", "concat($x, '')", "$x = true()", "string-length($x)", "- $x", "$x",
+		"$x and true()", "true() and $x", "$x or false()", "false() or $x", "count(/self::node()[$x])"} {
 		g := xsel.MustBuildExpr(s)
 		exprs[s] = &g
 	}
@@ -94,6 +95,52 @@ func RunNumber() {
 		r, err := run("$x = true()", v)
 		nd.Reach("num.eqtrue")
 		wantBool(r, err, spec.BoolOfNumber(x), "num.eqtrue")
+	}
+}
+
+// RunOperands: the implicit boolean conversion of operator operands and
+// predicate values ($x of each type as an operand of and/or and as a predicate).
+func RunOperands() {
+	var v xsel.Result
+	var truth bool
+	isNum := false
+	switch nd.Choice(3) {
+	case 0:
+		x := nd.F64()
+		v, truth, isNum = xsel.Number(x), spec.BoolOfNumber(x), true
+	case 1:
+		s := nd.Str(nd.Choice(3))
+		v, truth = xsel.String(s), len(s) > 0
+	case 2:
+		b := nd.Bool()
+		v, truth = xsel.Bool(b), b
+	}
+	switch nd.Choice(5) {
+	case 0:
+		r, err := run("$x and true()", v)
+		nd.Reach("operand.and")
+		wantBool(r, err, truth, "operand.and-left")
+	case 1:
+		r, err := run("true() and $x", v)
+		wantBool(r, err, truth, "operand.and-right")
+	case 2:
+		r, err := run("$x or false()", v)
+		nd.Reach("operand.or")
+		wantBool(r, err, truth, "operand.or-left")
+	case 3:
+		r, err := run("false() or $x", v)
+		wantBool(r, err, truth, "operand.or-right")
+	case 4:
+		// as a predicate: a number selects by position (the root is at position 1),
+		// everything else through boolean()
+		r, err := run("count(/self::node()[$x])", v)
+		nd.Reach("operand.predicate")
+		if isNum {
+			x := float64(v.(xsel.Number))
+			wantNumber(r, err, nd.IteF64(x == 1, 1, 0), "operand.predicate-number")
+		} else {
+			wantNumber(r, err, nd.IteF64(truth, 1, 0), "operand.predicate-boolean")
+		}
 	}
 }
 
